@@ -175,7 +175,18 @@ class GCWorld(gen.World):
         if which == "all":
             self.add(age_step(repo, "", 7200))
         else:
-            for d in self.rng.sample(sorted(g.bytes), min(len(g.bytes), self.rng.randrange(1, 4))):
+            # what a manifest references was stored before the manifest: ageing a manifest ages everything below it, so that
+            # the modification times stay those of a history of pushes (a parent is never older than its children)
+            todo = list(self.rng.sample(sorted(g.bytes), min(len(g.bytes), self.rng.randrange(1, 4))))
+            done = []
+            while todo:
+                d = todo.pop(0)
+                if d in done:
+                    continue
+                done.append(d)
+                if d in g.man:
+                    todo += [x for x in g.man[d]["refs"] if x in g.bytes]
+            for d in done:
                 self.add(age_step(repo, d, 7200))
 
     def probe_gc(self, repo, mark):
@@ -217,6 +228,7 @@ def observe(case, io):
         elif st["kind"] == "mget":
             if gen.is_tag_py(st["arg"]):
                 o["tag"][st["arg"]] = (res.get("status"), c.get("digest"))
+                o.setdefault("tagerrs", {})[st["arg"]] = c.get("errs")
             else:
                 o["man"][st["arg"]] = (res.get("status"), c.get("errs"))
         elif st["kind"] == "refs":
@@ -230,10 +242,17 @@ def replay_state(case, io):
     """tags and young digests of each repository as they follow from the responses, per collection step:
     {step index: (tags {tag: digest}, young set, all_old bool)}"""
     tags, young, last_head, out = {}, {}, {}, {}
+    gone = {}          # repo -> digests whose blob was deleted explicitly and not stored again since
     for k, (st, res) in enumerate(zip(case["steps"], io["steps"])):
         repo = st.get("repo")
         tg, yg = tags.setdefault(repo, {}), young.setdefault(repo, set())
+        gn = gone.setdefault(repo, set())
         kind, status = st["kind"], res.get("status")
+        if status == 201:
+            # stored (again)
+            gn.discard(st.get("digest") or "")
+            if kind == "mput":
+                gn.discard((res.get("headers") or {}).get("Docker-Content-Digest", [""])[0])
         if kind == "blobget" and st.get("head"):
             last_head[(repo, st["arg"])] = (k, status)
         elif kind == "upost" and status == 201 and st["digest"]:
@@ -257,6 +276,7 @@ def replay_state(case, io):
                     del tg[t]
         elif kind == "blobdel" and status == 202:
             yg.discard(st["arg"])
+            gn.add(st["arg"])
         elif kind == "age":
             if st["impl"].get("digest"):
                 yg.discard(st["impl"]["digest"])
@@ -264,4 +284,8 @@ def replay_state(case, io):
                 yg.clear()
         elif kind == "gc":
             out[k] = (dict(tg), set(yg))
+            if not res.get("err"):
+                # the collection prunes index entries without a backing blob, their tags with them
+                for t in [t for t, x in tg.items() if x in gn]:
+                    del tg[t]
     return out
